@@ -390,6 +390,11 @@ func c17GenMgrPlan(rt *rapid.T, nPeers, nHashes, nG, maxOps int) [][]c17Op {
 	return plan
 }
 
+// c17SigCleanupRace: Manager.cleanUp iterates (and logs) syncPool.peersList holding only the
+// manager lock, while pool.add (Validate) and pool.remove/cleanup (Peer) write it under the pool
+// lock: a data race between the GC goroutine and the shrex-sub validator / requests.
+const c17SigCleanupRace = "C17:datarace-gc-reads-pool-peerlist-unlocked"
+
 type c17MgrRun struct {
 	env     *c17Env
 	recs    []c17Rec
@@ -412,6 +417,11 @@ func c17RunMgrPlan(wd *c17Watchdog, params Parameters, uni []peer.ID, nHashes in
 	run := &c17Run{wd: wd}
 	results := []result{ResultNoop, ResultCooldownPeer, ResultBlacklistPeer}
 	var hdrMu, evMu sync.Mutex
+	// known finding (data race, reported by the race detector only): cleanUp reads the peer list
+	// of a pool without the pool's lock while Validate / Peer may write it. When it is listed as
+	// open, GC ticks are kept apart from those operations, which excludes exactly that overlap.
+	var gcMu sync.RWMutex
+	gcGuard := vk.KnownOpen(c17SigCleanupRace)
 	var wg sync.WaitGroup
 	startCh := make(chan struct{})
 	for g := range plan {
@@ -423,6 +433,10 @@ func c17RunMgrPlan(wd *c17Watchdog, params Parameters, uni []peer.ID, nHashes in
 				run.do(g, op, func(rec *c17Rec) {
 					switch op.Kind {
 					case "announce":
+						if gcGuard {
+							gcMu.RLock()
+							defer gcMu.RUnlock()
+						}
 						env.mgr.Validate(context.Background(), uni[op.Peer], shrexsub.Notification{DataHash: mr.hashes[op.Hash], Height: mr.heights[op.Hash]})
 					case "header":
 						hdrMu.Lock()
@@ -435,6 +449,10 @@ func c17RunMgrPlan(wd *c17Watchdog, params Parameters, uni []peer.ID, nHashes in
 						env.connectedness(uni[op.Peer], network.NotConnected)
 						evMu.Unlock()
 					case "peer":
+						if gcGuard {
+							gcMu.RLock()
+							defer gcMu.RUnlock()
+						}
 						ctx, cancel := context.WithTimeout(context.Background(), time.Duration(op.Micro)*time.Microsecond)
 						id, done, err := env.mgr.Peer(ctx, mr.hashes[op.Hash], mr.heights[op.Hash])
 						cancel()
@@ -449,6 +467,11 @@ func c17RunMgrPlan(wd *c17Watchdog, params Parameters, uni []peer.ID, nHashes in
 							}
 						}
 					case "gc":
+						if gcGuard {
+							gcMu.Lock()
+							defer gcMu.Unlock()
+							vk.Excluded(c17SigCleanupRace)
+						}
 						if bl := env.mgr.cleanUp(); len(bl) > 0 {
 							env.mgr.blacklistPeers(reasonInvalidHash, bl...)
 							if params.EnableBlackListing {
